@@ -55,6 +55,7 @@ type runCtx struct {
 	inconclusive     []string
 	violations       []confirmed
 	selfValidated    int
+	deadline         time.Time
 	results          []*hResult
 }
 
@@ -118,6 +119,10 @@ func runProperty(repo, root, id, tier, only string) int {
 		return 2
 	}
 	ctx := &runCtx{repo: repo, root: root, tier: tier, prog: prog, prop: prop}
+	ctx.deadline = t0.Add(12 * time.Minute)
+	if tier == "thorough" {
+		ctx.deadline = t0.Add(150 * time.Minute)
+	}
 
 	var specs []HSpec
 	for _, h := range prop.Harnesses {
@@ -339,6 +344,7 @@ func runOne(ctx *runCtx, h HSpec) *hResult {
 	if ctx.tier == "thorough" {
 		cfg.MaxWallS = 5400
 	}
+	cfg.Deadline = ctx.deadline
 	var mu sync.Mutex
 	// job runs one exploration (whole tree, frontier phase, or a subtree)
 	job := func(run func(m *engine.Machine) *engine.HarnessResult) (out *engine.HarnessResult) {
